@@ -214,6 +214,9 @@ func (c *Ctx) allowExternalInline(fn *ssa.Function) bool {
 }
 
 func (c *Ctx) wantInline(fr *Frame, callee *ssa.Function) bool {
+	if c.InlineAll {
+		return true
+	}
 	sp := c.Spec
 	if sp == nil {
 		return false
@@ -339,9 +342,46 @@ func (c *Ctx) callByContract(st *State, in ssa.Instruction, sp *FuncSpec, key st
 		}
 	}
 	for _, en := range sp.Ensures {
-		st.assume(c.evalBool(env2, en.Expr))
+		if t, ok := c.tryEvalBool(env2, en.Expr); ok {
+			st.assume(t)
+		} else {
+			c.Assumed["postcondition of "+short+" not usable in this arithmetic mode (skipped, weaker assumption): "+en.Src] = true
+		}
+	}
+	if sp.Pure {
+		// a pure function is a mathematical function of its scalar arguments
+		var ts []*Term
+		ok := true
+		for _, a := range args {
+			t, isT := a.(*Term)
+			if !isT {
+				ok = false
+				break
+			}
+			ts = append(ts, t)
+		}
+		if ok {
+			for i := 0; i < rs.Len(); i++ {
+				var rv Value = result
+				if rs.Len() > 1 {
+					rv = result.(*TupleV).V[i]
+				}
+				if rt, isT := rv.(*Term); isT {
+					st.assume(Eq(rt, c.pureApp(key, sig, i, ts)))
+				}
+			}
+		}
 	}
 	return result
+}
+
+func (c *Ctx) pureApp(key string, sig *types.Signature, i int, ts []*Term) *Term {
+	rt := sig.Results().At(i).Type()
+	mode := "int"
+	if c.BV {
+		mode = "bv"
+	}
+	return App(fmt.Sprintf("pure.%s#%d.%s", key[strings.LastIndex(key, "/")+1:], i, mode), c.sortOfBasic(rt), ts...)
 }
 
 // ---- builtins ----
@@ -921,3 +961,18 @@ func (c *Ctx) doSelect(st *State, x *ssa.Select) ([]*State, bool) {
 }
 
 var _ = big.NewInt
+
+// tryEvalBool evaluates a callee postcondition; clauses that need bit-vector operators cannot be
+// expressed for a math-mode caller and are dropped (assuming less is sound).
+func (c *Ctx) tryEvalBool(env *SpecEnv, e *SExpr) (t *Term, ok bool) {
+	defer func() {
+		if r := recover(); r != nil {
+			if ve, isV := r.(VerErr); isV && (strings.Contains(ve.Msg, "in math mode") || strings.Contains(ve.Msg, "not supported on sort Int")) {
+				t, ok = nil, false
+				return
+			}
+			panic(r)
+		}
+	}()
+	return c.evalBool(env, e), true
+}
